@@ -511,6 +511,13 @@ func (env *c12env) step(op Op) string {
 			}
 			env.violate("neq:"+prod, fmt.Sprintf("a fresh copy made by %s does not compare equal to its source%s", prod, what))
 		}
+		if equal {
+			// field-by-field: a duplicate carries every field of its source (a copy that satisfies
+			// Equal but drops, say, the sub-second part of a date is not a copy)
+			if d1, d2 := gen.Dump(s.v), gen.Dump(cp); d1 != d2 {
+				env.violate("neq-fields:"+prod, fmt.Sprintf("a fresh copy made by %s differs from its source at %s (field-by-field comparison)", prod, firstDiff(d1, d2)))
+			}
+		}
 		env.add(cp, prod, si)
 		env.checkAll(prod, -1, nil)
 		return "slot" + fmt.Sprint(len(env.heap)-1)
